@@ -919,6 +919,11 @@ func (st *c04State) checkRange() {
 	getBits := p.Func("cron", "getBits")
 	bt := st.pkgPath + ".bounds"
 	n := 0
+	doc, _ := c04PackageDoc(p.Pkg("cron"))
+	nstepDoc := c04DocHasNStep(doc)
+	if !nstepDoc {
+		r.Undecide("doc.go no longer contains the sentence 'The form \"N/...\" is accepted as meaning \"N-MAX/...\"': the meaning of N/step has no published spec to check against")
+	}
 	for _, fn := range p.FuncsOfPkg("cron") {
 		ord := 0
 		var bpar *ssa.Parameter
@@ -937,6 +942,9 @@ func (st *c04State) checkRange() {
 			ord++
 			n++
 			c04RangeFacts(p, r, "C04.P4-range", fn, call, ord, bpar, "min", "max")
+			if nstepDoc {
+				c04NStepRule(p, r, "C04.P5-nstep", fn, call, ord, bpar, "min", "max")
+			}
 		})
 	}
 	if n == 0 {
@@ -1318,6 +1326,9 @@ func c04FixtureRules(fp *Prog, fr *Report) {
 			if c, ok := in.(*ssa.Call); ok && staticCallee(c) == sink && fn != sink {
 				ord++
 				c04RangeFacts(fp, fr, "range", fn, c, ord, bpar, "lo", "hi")
+				if strings.Contains(fn.Name(), "NStep") {
+					c04NStepRule(fp, fr, "nstep", fn, c, ord, bpar, "lo", "hi")
+				}
 			}
 		})
 	}
